@@ -72,6 +72,8 @@ def macroFreeCallsGiven : Bool := true
 def freeTable : List (String × String) := [("u8", "OPENSSL_free"), ("EC_GROUP", "EC_GROUP_free"), ("EC_POINT", "EC_POINT_free"), ("EC_KEY", "EC_KEY_free"), ("ECDSA_SIG", "ECDSA_SIG_free"), ("BIGNUM", "BN_free")]
 /-- `unsafe impl <trait> for <type>` in lc/mod.rs -/
 def unsafeImpls : List (String × String) := [("Send", "SigningKey"), ("Send", "VerifyingKey"), ("Sync", "SigningKey"), ("Sync", "VerifyingKey")]
+/-- (type with an `unsafe impl Send / Sync`, offending field component): `Rc`, `Weak`, `Cell`, `RefCell`, `UnsafeCell`, … reachable through its fields -/
+def sendSyncFieldViolations : List (String × String) := []
 /-- structs of lc/mod.rs with their field types -/
 def structs : List (String × List String) := [("SigningKey", ["LcPtr<EC_KEY>"]), ("Signature", ["LcPtr<ECDSA_SIG>"]), ("VerifyingKey", ["LcPtr<EC_KEY>"])]
 end PM.Extracted.Ffi
